@@ -183,7 +183,7 @@ def tlc(module, cfg=None, workdir=None, workers=None, timeout=900, extra=(), fil
     m = re.search(r"Error: Invariant (\S+) is violated", p.stdout)
     if m:
         r.violated = m.group(1)
-    m2 = re.search(r"Error: Action property (.+?) is violated", p.stdout)      # a name, or "line N, col ..." of a refinement property
+    m2 = re.search(r"Error: Action property (\S+) is violated", p.stdout)
     if m2:
         r.violated = m2.group(1)
     if "Error: Temporal properties were violated" in p.stdout:
